@@ -37,14 +37,62 @@ fn state_name(s: &ProcessState) -> &'static str {
     }
 }
 
+/// Name given to the job of process `pid` (so that `%name` / `%?name` job IDs
+/// have unique, ambiguous and non-matching cases).
+pub fn name_of(pid: i32) -> &'static str {
+    match pid % 4 {
+        1 => "ab x",
+        2 => "abc",
+        3 => "b ab",
+        _ => "cab",
+    }
+}
+
+/// Job IDs resolved in every observed state (mirrored by `JobIds` in
+/// spec/JobListAbs.tla, in the same order).
+const JOB_IDS: &[&str] = &[
+    "%", "%%", "%+", "%-", "%1", "%2", "%3", "%4", "%5", "%0", "%ab", "%abc", "%b", "%c", "%?ab", "%?c", "%?x",
+    "%?zz", "%z", "ab",
+];
+
+fn chars(s: &str) -> Vec<String> {
+    s.chars().map(|c| c.to_string()).collect()
+}
+
+/// Resolves every job ID of `JOB_IDS` with the real parser and `JobId::find`.
+fn resolve_ids(l: &JobList) -> Vec<Value> {
+    use yash_env::job::id::{FindError, parse};
+    JOB_IDS
+        .iter()
+        .map(|id| {
+            let r: i64 = match parse(id) {
+                Err(_) => -4,
+                Ok(j) => match j.find(l) {
+                    Ok(i) => i as i64,
+                    Err(FindError::NotFound) => -2,
+                    Err(FindError::Ambiguous) => -3,
+                },
+            };
+            json!(r)
+        })
+        .collect()
+}
+
 /// Projection of the public API of a `JobList` (what `%+ %- %n $!`, `jobs`,
 /// `wait` and `fg`/`bg` can observe).
 pub fn project(l: &JobList, pids: &[i32]) -> Value {
+    project_opt(l, pids, true)
+}
+
+/// `with_ids`: also resolve the job IDs (done for post-states only; a pre-state is
+/// the post-state of an earlier record).
+pub fn project_opt(l: &JobList, pids: &[i32], with_ids: bool) -> Value {
     let jobs: Vec<Value> = l
         .iter()
         .map(|(i, j)| {
             json!({"i": i, "pid": j.pid.0, "st": state_name(&j.state), "ch": j.state_changed,
-                   "ex": j.expected_state.as_ref().map(state_name).unwrap_or("N"), "own": j.is_owned})
+                   "ex": j.expected_state.as_ref().map(state_name).unwrap_or("N"), "own": j.is_owned,
+                   "name": chars(&j.name)})
         })
         .collect();
     let by: Vec<Value> = pids
@@ -58,6 +106,7 @@ pub fn project(l: &JobList, pids: &[i32]) -> Value {
         "prev": l.previous_job().map(|i| i as i64).unwrap_or(-1),
         "by": by,
         "last": l.last_async_pid().0,
+        "ids": if with_ids { resolve_ids(l) } else { vec![] },
     })
 }
 
@@ -71,6 +120,7 @@ pub fn apply(l: &mut JobList, op: &Value) -> Value {
         "insert" => {
             let mut j = Job::new(Pid(p));
             j.state = state_of(s);
+            j.name = name_of(p).to_string();
             json!(l.insert(j))
         }
         "update" => json!(l.update_status(Pid(p), state_of(s)).map(|i| i as i64).unwrap_or(-1)),
@@ -183,7 +233,7 @@ fn insert_allowed(l: &JobList, op: &Value) -> bool {
 }
 
 fn step_record(l: &JobList, op: &Value, pids: &[i32]) -> (Value, Option<JobList>) {
-    let pre = project(l, pids);
+    let pre = project_opt(l, pids, false);
     let mut l2 = l.clone();
     match util::catch(|| {
         let r = apply(&mut l2, op);
@@ -317,8 +367,10 @@ pub fn redo(args: &[String]) -> i32 {
             for i in 0..=max {
                 match jobs.iter().find(|j| j["i"].as_u64().unwrap() == i) {
                     Some(j) => {
-                        let mut job = Job::new(Pid(j["pid"].as_i64().unwrap() as i32));
+                        let pid = j["pid"].as_i64().unwrap() as i32;
+                        let mut job = Job::new(Pid(pid));
                         job.state = state_of(j["st"].as_str().unwrap());
+                        job.name = name_of(pid).to_string();
                         l.insert(job);
                     }
                     None => fillers.push(l.insert(Job::new(Pid(1000 + i as i32)))),
